@@ -320,14 +320,14 @@ class ComposedNode(ConfigNode):
                     possibly_new_child = child.ayns.on_merge(path + [key], value)
 
                     if merge:
-                        if not possibly_new_child and not possibly_new_child.ayns.has_priority_over(value) and value.ayns.explicit_delete:
+                        if ComposedNode._is_valueless(possibly_new_child) and not possibly_new_child.ayns.has_priority_over(value) and value.ayns.explicit_delete:
                             to_remove.append(key)
                         elif possibly_new_child is not child:
                             self.ayns.set_child(key, possibly_new_child)
                     else:
                         if possibly_new_child is not child:
                             possibly_new_child.ayns._require_all_new(path + [key], f'last parent: {_this_path!r}, from file: {self.ayns.source_file!r}', include_self=False)
-                            if not possibly_new_child and possibly_new_child.ayns.explicit_delete:
+                            if ComposedNode._is_valueless(possibly_new_child) and possibly_new_child.ayns.explicit_delete:
                                 to_remove.append(key)
                             else:
                                 self.ayns.set_child(key, possibly_new_child)
@@ -379,6 +379,15 @@ class ComposedNode(ConfigNode):
         elif isinstance(self, dict):
             dit = iter(self.items())
         return ComposedNode._recreate, (type(self), ), state, lit, dit
+
+    @staticmethod
+    def _is_valueless(node):
+        ''' What an explicit "!del" has to carry to mean "remove this key": no value at all (or null), or an empty container.
+            A scalar which merely is falsy (0, false, '') is a value like any other.
+        '''
+        if isinstance(node, ComposedNode):
+            return not node
+        return node.ayns.value is None
 
     def _get_child_kwargs(self, child=None):
         ret = {}
